@@ -139,38 +139,47 @@ def worker(args):
                     out['error'] = 'solver unknown on weight'
             out['checked'] += 1
         out.update(stmts=M.stats['stmts'], queries=M.nq + qs, solver_s=round(M.qtime + ss, 1))
-    except mirx.Unsupported as e:
-        out['error'] = 'unsupported: ' + str(e)
+    except Exception as e:
+        import traceback
+        out['error'] = ('unsupported: ' + str(e)) if isinstance(e, mirx.Unsupported) else ('internal error in the check machinery: ' + repr(e) + ' | ' + traceback.format_exc()[-700:])
     out['wall'] = round(time.time() - t0, 1)
     return out
 
 
 def list_worker(args):
-    """HandRange::from_str on 'T1[:w1] , T2[:w2]' with symbolic weight digits and spaces: equals ordered insertion"""
-    src, mir, t1, t2, spaces = args
+    """HandRange::from_str on 'T1:w1 , T2:w2 [, T3:w3]' with symbolic weight digits and spaces: equals ordered insertion
+    (a later token overrides an earlier one on the overlap; T3 may repeat T1's text exactly)"""
+    src, mir, toks, spaces = args
     t0 = time.time()
     import z3, mirx
     from mlib import load_lib, fn, run_fn, is_panic, Str, Int, decide, sat_model, model_bytes, F32, RNE, conc_card_name, ENUMS
     import tokens
-    out = dict(pair=(t1, t2), bad=[], error=None)
+    out = dict(pair=tuple(toks), bad=[], error=None)
     try:
         M = load_lib(src, 'dev', mir)
         f = fn(M, '<HandRange as FromStr>::from_str')
-        ds = [z3.BitVec(f'd{i}', 8) for i in range(4)]
+        nd = 2 * len(toks)
+        ds = [z3.BitVec(f'd{i}', 8) for i in range(nd)]
         dig = [z3.And(z3.UGE(d, 48), z3.ULE(d, 57)) for d in ds]
-        text = []
+
         def lit(s_):
             return [Int(ord(ch), 8) for ch in s_]
-        text += lit(' ' * spaces[0]) + lit(t1[:2]) + lit(' ' * spaces[1]) + lit(t1[2:]) + lit(':0.') + [Int(ds[0], 8), Int(ds[1], 8)] + lit(' ,' + ' ' * spaces[2]) + lit(t2) + lit(':0.') + [Int(ds[2], 8), Int(ds[3], 8)] + lit(' ' * spaces[3])
+        text = []
+        ws = []
+        for k, t in enumerate(toks):
+            if k:
+                text += lit(',')
+            sp = spaces[k % len(spaces)]
+            text += lit(' ' * sp) + lit(t[:2]) + lit(' ' * (1 - sp)) + lit(t[2:]) + lit(':0.') + [Int(ds[2 * k], 8), Int(ds[2 * k + 1], 8)] + lit(' ' * sp)
+            ws.append(z3.fpDiv(RNE, z3.fpUnsignedToFP(RNE, (z3.ZeroExt(24, ds[2 * k]) - 48) * 10 + (z3.ZeroExt(24, ds[2 * k + 1]) - 48), F32), z3.FPVal(100.0, F32)))
         res = run_fn(M, f, [Str(text)], dig)
-        w1 = z3.fpDiv(RNE, z3.fpUnsignedToFP(RNE, (z3.ZeroExt(24, ds[0]) - 48) * 10 + (z3.ZeroExt(24, ds[1]) - 48), F32), z3.FPVal(100.0, F32))
-        w2 = z3.fpDiv(RNE, z3.fpUnsignedToFP(RNE, (z3.ZeroExt(24, ds[2]) - 48) * 10 + (z3.ZeroExt(24, ds[3]) - 48), F32), z3.FPVal(100.0, F32))
-        d1, d2 = tokens.denotation(t1), tokens.denotation(t2)
-        want = {c: w1 for c in d1}
-        want.update({c: w2 for c in d2})
+        want = {}
+        for t, w in zip(toks, ws):
+            want.update({c: w for c in tokens.denotation(t)})
         for r in res:
+            label = ','.join(toks)
             if is_panic(r):
-                out['bad'].append(dict(ob='list=ordered-insertion', text=f'{t1},{t2}', detail='panic ' + r.result[1])); continue
+                out['bad'].append(dict(ob='list=ordered-insertion', text=label, detail='panic ' + r.result[1])); continue
             mp = r.result.f[0].f[0]
             got = {}
             for sl in mp.slots:
@@ -180,16 +189,51 @@ def list_worker(args):
                                      (ENUMS['Rank'].index(cp.f[1].f[0].var), ENUMS['Suit'].index(cp.f[1].f[1].var))])
                     got[key] = sl[1].v
             if set(got) != set(want):
-                out['bad'].append(dict(ob='list=ordered-insertion', text=f'{t1},{t2}', detail=f'combo sets differ: got {len(got)} want {len(want)}')); continue
+                out['bad'].append(dict(ob='list=ordered-insertion', text=label, detail=f'combo sets differ: got {len(got)} want {len(want)}')); continue
             c, m, dt = decide(r.pc, z3.And(*[got[k] == want[k] for k in want]), 300)
             if c != 'unsat':
-                out['bad'].append(dict(ob='list=ordered-insertion', text=f'{t1},{t2}', detail=f'weights differ ({c}); later token must win on the overlap'))
+                d = dict(ob='list=ordered-insertion', text=label, detail=f'weights differ ({c}); the later token must win on the overlap')
+                if m is not None:
+                    b = bytes((m.eval(x.z(), model_completion=True).as_long() if not x.conc() else x.v) for x in text)
+                    d['hex'] = b.hex()
+                    d['concrete'] = b.decode()
+                out['bad'].append(d)
         out['paths'] = len(res)
         out['queries'] = M.nq + len(res)
-    except mirx.Unsupported as e:
-        out['error'] = 'unsupported: ' + str(e)
+    except Exception as e:
+        import traceback
+        out['error'] = ('unsupported: ' + str(e)) if isinstance(e, mirx.Unsupported) else ('internal error in the check machinery: ' + repr(e) + ' | ' + traceback.format_exc()[-700:])
     out['wall'] = round(time.time() - t0, 1)
     return out
+
+
+def native_list_bad(bins, text):
+    """independent native judgement of a token list: parsed range == ordered insertion of tokens.denotation"""
+    import tokens, struct
+    from mlib import RANK_CH, SUIT_CH
+    rc, kv, raw = replay(bins, 'debug', ['parse', 'range', text.encode().hex()])
+    if kv.get('result') != 'ok':
+        return f'native result {kv.get("result")}'
+    want = {}
+    for piece in text.replace(' ', '').split(','):
+        body = piece.split(':')[0]
+        d = tokens.denotation(body)
+        if d is None:
+            continue
+        w = struct.unpack('>f', struct.pack('>f', float(piece.split(':')[1])))[0] if ':' in piece else 1.0
+        for c in d:
+            want[c] = w
+    got = {}
+    for item in kv.get('combos', '').split(','):
+        if item:
+            c, w = item.split('=')
+            got[frozenset([(RANK_CH.index(c[0]), SUIT_CH.index(c[1])), (RANK_CH.index(c[2]), SUIT_CH.index(c[3]))])] = struct.unpack('>f', bytes.fromhex(w))[0]
+    if set(got) != set(want):
+        return f'{text!r}: native holds {len(got)} combos, ordered insertion {len(want)}'
+    for k in want:
+        if got[k] != want[k]:
+            return f'{text!r}: a combo has weight {got[k]} natively, ordered insertion gives {want[k]}'
+    return ''
 
 
 def main():
@@ -200,6 +244,10 @@ def main():
     bins = replay_build(src, ('debug',))
     if a.replay:
         cex = json.load(open(a.replay))
+        if cex.get('list'):
+            bad = native_list_bad(bins, cex['list'])
+            print('native verdict:', bad or 'ok')
+            sys.exit(1 if bad else 0)
         rc, kv, raw = replay(bins, 'debug', ['parse', 'token', cex['hex']])
         print(raw)
         bad = native_token_bad(kv, bytes.fromhex(cex['hex']).decode('utf-8', 'replace'))
@@ -215,7 +263,8 @@ def main():
         pairs = [('QQ+', 'KK-JJ'), ('A9s+', 'AQs-A9s'), ('AKo', 'AsKh'), ('72o', '72o'), ('88-66', '77')]
         more = [('TT+', 'JJ-88'), ('K5s+', 'KTs-K2s'), ('QJs', 'QsJs'), ('A2o+', 'AKo-AJo'), ('33', '22+')]
         pick = pairs[:2] + [rnd.choice(pairs[2:] + more)] if a.tier == 'quick' else pairs + more
-        ljobs = [(src, mir, t1, t2, [rnd.randrange(2) for _ in range(4)]) for t1, t2 in pick]
+        lists = [list(p_) for p_ in pick] + [[p_[0], p_[1], p_[0]] for p_ in (pick[:2] if a.tier == 'quick' else pick)]     # T,U and T,U,T
+        ljobs = [(src, mir, l_, [rnd.randrange(2) for _ in range(3)]) for l_ in lists]
         with Pool(NCPU) as pool:
             r1 = pool.map_async(worker, [(src, L, mir, k, n) for L, k, n in tokens.split_jobs(lens)], chunksize=1)
             r2 = pool.map_async(list_worker, ljobs, chunksize=1)
@@ -251,10 +300,12 @@ def main():
                 obs.append(Obligation('every-well-formed-shape-accepted', 'holds', f'all {len(wanted)} well-formed shapes of length <= {Lmax} lie on an Ok path', queries=len(wanted)))
         lbad = [b for d in lres for b in d['bad']]
         if lbad:
-            b = lbad[0]
-            obs.append(Obligation('list=ordered-insertion', 'violated', f"{b['text']}: {b['detail']}", cex=dict(text=b['text'], reproduced=False), key='list:overlap-or-spaces'))
+            b = ([x for x in lbad if x.get('concrete')] or lbad)[0]
+            nb = native_list_bad(bins, b['concrete']) if b.get('concrete') else ''
+            obs.append(Obligation('list=ordered-insertion', 'violated', f"{b['text']}: {b['detail']}; witness {b.get('concrete')!r}; native: {nb or 'not reproduced'}",
+                                  cex=dict(text=b['text'], list=b.get('concrete'), hex=b.get('hex'), kind='range', native=nb, reproduced=bool(nb)), key='list:overlap-or-spaces'))
         elif not any(d['error'] for d in lres):
-            obs.append(Obligation('list=ordered-insertion', 'holds', f'{len(lres)} two-token lists with symbolic weights and inserted spaces: later token wins on the overlap', queries=sum(d.get('queries', 0) for d in lres)))
+            obs.append(Obligation('list=ordered-insertion', 'holds', f'{len(lres)} token lists (T,U and T,U,T) with symbolic weights and inserted spaces: later token wins on the overlap', queries=sum(d.get('queries', 0) for d in lres)))
         cov = dict(states=max(paths, 1), transitions=max(q, 1), traces_validated_against_impl=sum(1 for o in obs if o.cex and o.cex.get('reproduced')),
                    samples=[{k: d.get(k) for k in ('L', 'paths', 'checked', 'err_paths', 'wall')} for d in results] + [dict(list=d['pair'], paths=d.get('paths'), wall=d['wall']) for d in lres],
                    functions_encoded=['<HandRangeToken as FromStr>::from_str', 'parse_probability', '<HandRangeToken as IntoIterator>::into_iter', '<RankPair as IntoIterator>::into_iter',
